@@ -73,6 +73,6 @@ RECURSIVE SetToSeq(_)
 SetToSeq(s) == IF s = {} THEN <<>> ELSE LET x == CHOOSE y \in s : TRUE IN <<x>> \o SetToSeq(s \ {x})
 AllFiles == SetToSeq(FileSet)
 (* stop tags: every attribute of the root data set, tags between and beyond *)
-AllStops == {<<8, 96>>, <<8, 4416>>, <<16, 0>>, <<16, 32>>, <<40, 16>>, <<114, 128>>, <<136, 512>>, PixelTag, <<65532, 65532>>}
+AllStops == {<<8, 24>>, <<64, 629>>, <<8, 96>>, <<8, 4416>>, <<16, 0>>, <<16, 32>>, <<40, 16>>, <<114, 128>>, <<136, 512>>, PixelTag, <<65532, 65532>>}
 QuickStops == {<<8, 4416>>, <<16, 0>>, PixelTag, <<65532, 65532>>}
 =============================================================================
